@@ -378,6 +378,10 @@ func (fx *FX) modItem(x *SX, env *SEnv, st *State) []modItem {
 		if s, ok := e.ghostSort[x.Name]; ok {
 			return []modItem{{heap: x.Name, sort: s}}
 		}
+		// a local variable that lives in a heap cell (captured by a closure)
+		if v := fx.specVal(x, env, st, st); v.Loc != nil {
+			return []modItem{{heap: v.Loc.Heap, sort: ArrS(SRef, e.SortOf(v.Loc.GT)), obj: v.Loc.Obj}}
+		}
 	case "idx":
 		if x.A[0].K == "id" {
 			if s, ok := e.ghostSort[x.A[0].Name]; ok {
@@ -952,6 +956,41 @@ func (a *act) goStmt(in *ssa.Go, guard string, st *State) {
 		full := append(append([]Val{}, fnv.Bind...), args...)
 		a.callStatic(fnv.Fn, fnv.Bind, args, full, guard, st, in.Pos(), c.Signature())
 		fx.inGo--
+	case "monitor":
+		// Monitor rule: the spawned body touches the shared state only inside critical sections of the monitor lock, each
+		// of which is verified separately against the monitor invariant (assumed at acquisition, proved at release). For
+		// the spawning function the statement therefore changes nothing; what it owes the body is the body's precondition,
+		// which may only speak about the body's own arguments and about state that no critical section changes.
+		fx.eng.assume("monitor rule: goroutines spawned in " + fx.key + " access the shared state only under the monitor lock; their preconditions are established at the spawn and must be stable")
+		sp := fx.eng.specs.Funcs[FuncKey(fnv.Fn)]
+		if sp == nil {
+			unsupportedf("go statement: spawned function %s has no contract", FuncKey(fnv.Fn))
+		}
+		fx.usedSpec[sp.Key] = true
+		qn := 0
+		env := &SEnv{vars: map[string]Val{}, qn: &qn, pkg: sp.Pkg, nowOld: fx.now(st)}
+		for i, p := range fnv.Fn.Params {
+			if i < len(args) {
+				v := args[i]
+				v.GT = p.Type()
+				env.vars[p.Name()] = v
+			}
+		}
+		for i, fv := range fnv.Fn.FreeVars {
+			if i < len(fnv.Bind) {
+				v := fnv.Bind[i]
+				v.GT = fv.Type()
+				env.vars[fv.Name()] = v
+			}
+		}
+		for _, r := range sp.Requires {
+			t := fx.specTerm(r.X, env, st, st, sp.Pkg)
+			name := r.Name
+			if name == "" {
+				name = normSpace(r.Text)
+			}
+			fx.addObl("pre", a.prefix()+"pre@go "+sp.Key+":"+name, guard, t, in.Pos(), "precondition of the spawned function")
+		}
 	default:
 		unsupportedf("go statement (no concurrency rule selected)")
 	}
